@@ -257,7 +257,7 @@ func c19Derived(r *core.Run, idx int, rng *rand.Rand) {
 		o.FwdHeaders = []string{}
 	case "custom_headers":
 		o.UseFwd = true
-		headers = [][]string{{"X-Original-Forwarded", "Forwarded"}, {"x-custom-fwd"}, {"Forwarded", "X-Second"}}[rng.Intn(3)]
+		headers = [][]string{{"X-Original-Forwarded", "Forwarded"}, {"x-custom-fwd"}, {"Forwarded", "X-Second"}, {"X-First", "x-second", "FORWARDED"}}[rng.Intn(4)]
 		o.FwdHeaders = headers
 	}
 	e, err := env.New(o)
@@ -278,6 +278,9 @@ func c19Derived(r *core.Run, idx int, rng *rand.Rand) {
 		hdr := map[string][]string{}
 		wellFormed := true
 		expected, found := "", false
+		// a malformed header in which the word host occurs may or may not be taken to carry one; a malformed header
+		// that names no host at all carries none under any reading, and takes none away from the other headers
+		ambiguous := false
 		var allValues []string
 		// headers the provider does not look at must never matter
 		if rng.Intn(2) == 0 {
@@ -293,24 +296,49 @@ func c19Derived(r *core.Run, idx int, rng *rand.Rand) {
 				continue
 			}
 			var lines []string
+			malformedHere, hostHere := false, false
+			hostless := rng.Intn(3) == 0 // a header that names no host at all
 			for l := 1 + rng.Intn(2); l > 0; l-- {
 				var els []string
 				for n := 1 + rng.Intn(3); n > 0; n-- {
 					if rng.Intn(6) == 0 {
-						wellFormed = false
-						els = append(els, []string{"host", "host=", "=x", "host=\"unterminated", ";;;", "host=a b", "host=a,b=;", "\"", "host=\"a\"b", "for=1;;host=late.example", " host = spaced.example "}[rng.Intn(11)])
+						wellFormed, malformedHere = false, true
+						bad := []string{"host", "host=", "=x", "host=\"unterminated", ";;;", "host=a b", "host=a,b=;", "\"", "host=\"a\"b", "for=1;;host=late.example", " host = spaced.example ", "for", "for=\"unterminated", "by=a b", "proto"}
+						el := bad[rng.Intn(len(bad))]
+						if hostless {
+							el = []string{"=x", ";;;", "\"", "for", "for=\"unterminated", "by=a b", "proto"}[rng.Intn(7)]
+						}
+						hostHere = hostHere || strings.Contains(strings.ToLower(el), "host")
+						els = append(els, el)
 						continue
 					}
 					el, hv, has := fwdElement(rng)
+					for hostless && has {
+						el, hv, has = fwdElement(rng)
+					}
 					els = append(els, el)
+					hostHere = hostHere || has
 					if has && !found {
 						expected, found = hv, true
 					}
 				}
-				lines = append(lines, strings.Join(els, []string{",", ", ", " ,"}[rng.Intn(3)]))
+				line := strings.Join(els, []string{",", ", ", " ,"}[rng.Intn(3)])
+				if rng.Intn(4) == 0 {
+					// an empty forwarded-pair at the end of the field line (RFC 7239: [pair] *(";" [pair])): it carries no
+					// host and takes none away from the lines and headers around it
+					line += []string{";", "; ", " ;"}[rng.Intn(3)]
+					r.Count("field_lines_ending_in_a_semicolon", 1)
+				}
+				lines = append(lines, line)
 			}
 			hdr[h] = lines
 			allValues = append(allValues, lines...)
+			if malformedHere && hostHere {
+				ambiguous = true
+			}
+			if malformedHere && !hostHere {
+				r.Count("malformed_headers_that_name_no_host", 1)
+			}
 		}
 		if !found {
 			expected = reqHost
@@ -318,6 +346,9 @@ func c19Derived(r *core.Run, idx int, rng *rand.Rand) {
 		// the request itself carries a scheme / path that must be ignored
 		mv := fetchMeta(e, env.PathMetadata, reqHost, hdr)
 		class := fmt.Sprintf("%s|insecure=%v|path=%q|wellformed=%v", mode, insecure, path, wellFormed)
+		if !wellFormed && !ambiguous {
+			class += "|malformed_headers_name_no_host"
+		}
 		desc := map[string]any{"mode": mode, "configured_headers": headers, "request_host": reqHost, "headers": hdr, "path": path, "insecure": insecure}
 		r.Eval(class + core.Hex(fmt.Sprint(hdr, reqHost)))
 		r.Count("header_sets", 1)
@@ -328,7 +359,7 @@ func c19Derived(r *core.Run, idx int, rng *rand.Rand) {
 			viol("metadata_unavailable", mv.Err)
 			continue
 		}
-		if wellFormed {
+		if wellFormed || !ambiguous {
 			want := scheme + expected + wantPath
 			wantEntity := strings.TrimSuffix(want, "/") + "/metadata"
 			if foldHost(mv.EntityID) != foldHost(wantEntity) { // how the host's letters are cased is not judged
